@@ -49,6 +49,7 @@ type c18flow struct {
 	From int    `json:"from"` // index of the process holding the throw event
 	To   int    `json:"to"`   // index of the target process
 	Kind string `json:"kind"` // start | catch
+	Src  string `json:"src"`  // throw event of the source process: "" = h, "h2" = the second one (shape thr2)
 }
 
 type c18case struct {
@@ -58,6 +59,8 @@ type c18case struct {
 	Mode  string    `json:"mode"`  // single | seq | conc | early
 	K     int       `json:"k"`     // number of waits (seq, conc)
 	Sched string    `json:"sched"` // free | latefast | lateall | lateinst | holdinst
+	Park  string    `json:"park"`  // mode park: task requests of this node ("w1_A") or node:occurrence ("w0_A:2") are withheld
+	Order string    `json:"order"` // fwd | rev | "" (seeded): which pending request is answered next
 	Pert  int       `json:"pert"`  // perturbation level
 	Seed  uint64    `json:"seed"`
 }
@@ -65,10 +68,10 @@ type c18case struct {
 func (c c18case) params() []any {
 	fl := make([]string, len(c.Flows))
 	for i, f := range c.Flows {
-		fl[i] = fmt.Sprintf("%d>%d:%s", f.From, f.To, f.Kind)
+		fl[i] = fmt.Sprintf("%d%s>%d:%s", f.From, f.Src, f.To, f.Kind)
 	}
 	return []any{dash(strings.Join(c.Execs, ",")), dash(strings.Join(c.Waits, ",")), dash(strings.Join(fl, ",")),
-		c.Mode, c.K, c.Sched, c.Pert}
+		c.Mode, c.K, c.Sched, c.Pert, dash(c.Park), dash(c.Order)}
 }
 
 func dash(s string) string {
@@ -130,18 +133,18 @@ func c18cases(tier string) []c18case {
 		f    []c18flow
 	}
 	flowSets := []mf{
-		{[]string{"thr1"}, []string{"wtask"}, []c18flow{{0, 1, "start"}}},
-		{[]string{"thr1"}, []string{"wtriv"}, []c18flow{{0, 1, "start"}}},
-		{[]string{"thr0"}, []string{"wtask"}, []c18flow{{0, 1, "start"}}},
-		{[]string{"thr0"}, []string{"wtriv"}, []c18flow{{0, 1, "start"}}},
-		{[]string{"thr1", "task"}, []string{"wtask", "wtriv"}, []c18flow{{0, 2, "start"}}},
-		{[]string{"thr1", "cat"}, nil, []c18flow{{0, 1, "catch"}}},
-		{[]string{"thr1", "cat", "triv"}, []string{"wtask"}, []c18flow{{0, 1, "catch"}}},
-		{[]string{"thr1", "thr1"}, []string{"wtask"}, []c18flow{{0, 2, "start"}, {1, 2, "start"}}},
-		{[]string{"thr1", "thr1"}, []string{"wtask", "wtriv"}, []c18flow{{0, 2, "start"}, {1, 3, "start"}}},
-		{[]string{"thr1", "thr1", "cat"}, []string{"wtask"}, []c18flow{{0, 3, "start"}, {1, 2, "catch"}}},
-		{[]string{"sample"}, []string{"wthr"}, []c18flow{{0, 1, "start"}, {1, 0, "catch"}}},
-		{[]string{"sample", "task"}, []string{"wthr", "wtriv"}, []c18flow{{0, 2, "start"}, {2, 0, "catch"}}},
+		{[]string{"thr1"}, []string{"wtask"}, []c18flow{{From: 0, To: 1, Kind: "start"}}},
+		{[]string{"thr1"}, []string{"wtriv"}, []c18flow{{From: 0, To: 1, Kind: "start"}}},
+		{[]string{"thr0"}, []string{"wtask"}, []c18flow{{From: 0, To: 1, Kind: "start"}}},
+		{[]string{"thr0"}, []string{"wtriv"}, []c18flow{{From: 0, To: 1, Kind: "start"}}},
+		{[]string{"thr1", "task"}, []string{"wtask", "wtriv"}, []c18flow{{From: 0, To: 2, Kind: "start"}}},
+		{[]string{"thr1", "cat"}, nil, []c18flow{{From: 0, To: 1, Kind: "catch"}}},
+		{[]string{"thr1", "cat", "triv"}, []string{"wtask"}, []c18flow{{From: 0, To: 1, Kind: "catch"}}},
+		{[]string{"thr1", "thr1"}, []string{"wtask"}, []c18flow{{From: 0, To: 2, Kind: "start"}, {From: 1, To: 2, Kind: "start"}}},
+		{[]string{"thr1", "thr1"}, []string{"wtask", "wtriv"}, []c18flow{{From: 0, To: 2, Kind: "start"}, {From: 1, To: 3, Kind: "start"}}},
+		{[]string{"thr1", "thr1", "cat"}, []string{"wtask"}, []c18flow{{From: 0, To: 3, Kind: "start"}, {From: 1, To: 2, Kind: "catch"}}},
+		{[]string{"sample"}, []string{"wthr"}, []c18flow{{From: 0, To: 1, Kind: "start"}, {From: 1, To: 0, Kind: "catch"}}},
+		{[]string{"sample", "task"}, []string{"wthr", "wtriv"}, []c18flow{{From: 0, To: 2, Kind: "start"}, {From: 2, To: 0, Kind: "catch"}}},
 		{[]string{"thr1"}, []string{"wtask"}, nil}, // a throw event without a message flow
 	}
 	for fi, fs := range flowSets {
@@ -154,15 +157,41 @@ func c18cases(tier string) []c18case {
 	}
 	// D. completion racing with the delivery of a message flow, enforced: the run loop is held inside
 	//    StartWith of the instantiated process until the throwing process has finished
-	add(c18case{Execs: []string{"thr0"}, Waits: []string{"wtask"}, Flows: []c18flow{{0, 1, "start"}}, Mode: "single", K: 1, Sched: "holdinst"})
-	add(c18case{Execs: []string{"thr1"}, Waits: []string{"wtask"}, Flows: []c18flow{{0, 1, "start"}}, Mode: "single", K: 1, Sched: "holdinst"})
+	add(c18case{Execs: []string{"thr0"}, Waits: []string{"wtask"}, Flows: []c18flow{{From: 0, To: 1, Kind: "start"}}, Mode: "single", K: 1, Sched: "holdinst"})
+	add(c18case{Execs: []string{"thr1"}, Waits: []string{"wtask"}, Flows: []c18flow{{From: 0, To: 1, Kind: "start"}}, Mode: "single", K: 1, Sched: "holdinst"})
 	// D'. the same window in run: the watcher of an INSTANTIATED process is held before it subscribes until the
 	//     instantiated process has finished (on a tree where run subscribes first, the held point precedes the start)
 	for _, w := range []string{"wtriv", "wtask"} {
-		add(c18case{Execs: []string{"thr1"}, Waits: []string{w}, Flows: []c18flow{{0, 1, "start"}}, Mode: "single", K: 1, Sched: "lateinst"})
+		add(c18case{Execs: []string{"thr1"}, Waits: []string{w}, Flows: []c18flow{{From: 0, To: 1, Kind: "start"}}, Mode: "single", K: 1, Sched: "lateinst"})
 	}
-	add(c18case{Execs: []string{"thr0"}, Waits: []string{"wtriv"}, Flows: []c18flow{{0, 1, "start"}}, Mode: "single", K: 1, Sched: "lateinst"})
-	add(c18case{Execs: []string{"thr1", "thr1"}, Waits: []string{"wtriv"}, Flows: []c18flow{{0, 2, "start"}, {1, 2, "start"}}, Mode: "single", K: 1, Sched: "lateinst"})
+	add(c18case{Execs: []string{"thr0"}, Waits: []string{"wtriv"}, Flows: []c18flow{{From: 0, To: 1, Kind: "start"}}, Mode: "single", K: 1, Sched: "lateinst"})
+	add(c18case{Execs: []string{"thr1", "thr1"}, Waits: []string{"wtriv"}, Flows: []c18flow{{From: 0, To: 2, Kind: "start"}, {From: 1, To: 2, Kind: "start"}}, Mode: "single", K: 1, Sched: "lateinst"})
+	// D''. two or more processes instantiated by message flows, each parking on its own task, finishing at different
+	//      times: every message-started process in turn is kept parked while the others are released (both orders), a
+	//      wait under a deadline is made (must be false), then the parked one is released and a second wait is made.
+	//      Also a message-started process that itself throws while a sibling is alive.
+	type pk struct {
+		e, w  []string
+		f     []c18flow
+		parks []string
+	}
+	for _, x := range []pk{
+		{[]string{"thr2"}, []string{"wtask", "wtask"}, []c18flow{{From: 0, To: 1, Kind: "start"}, {From: 0, To: 2, Kind: "start", Src: "h2"}},
+			[]string{"w0_A", "w1_A", "e0_B"}},
+		{[]string{"thr1", "thr1"}, []string{"wtask", "wtask"}, []c18flow{{From: 0, To: 2, Kind: "start"}, {From: 1, To: 3, Kind: "start"}},
+			[]string{"w0_A", "w1_A"}},
+		{[]string{"thr1", "thr1"}, []string{"wtask"}, []c18flow{{From: 0, To: 2, Kind: "start"}, {From: 1, To: 2, Kind: "start"}},
+			[]string{"w0_A:1", "w0_A:2"}},
+		{[]string{"thr1", "thr1"}, []string{"wthr", "wtask", "wtask"},
+			[]c18flow{{From: 0, To: 2, Kind: "start"}, {From: 1, To: 4, Kind: "start"}, {From: 2, To: 3, Kind: "start"}},
+			[]string{"w2_A", "w1_A"}},
+	} {
+		for _, park := range x.parks {
+			for _, ord := range []string{"fwd", "rev"} {
+				add(c18case{Execs: x.e, Waits: x.w, Flows: x.f, Mode: "park", K: 2, Sched: "free", Park: park, Order: ord})
+			}
+		}
+	}
 	// E. perturbed schedules (thorough)
 	if tier == "thorough" {
 		base := append([]c18case(nil), cs...)
@@ -196,11 +225,12 @@ func c18graph(id, shape string, executable bool) *eng.Graph {
 			g.Connect(ns[i], ns[i+1], nil)
 		}
 	}
-	throw := func() *eng.Node {
-		h := g.Add("intermediateThrowEvent", "h", "")
-		h.Defs = []eng.EventDef{{Kind: "message", Name: "msg_" + id + "_h"}}
+	throwN := func(n string) *eng.Node {
+		h := g.Add("intermediateThrowEvent", n, "")
+		h.Defs = []eng.EventDef{{Kind: "message", Name: "msg_" + id + "_" + n}}
 		return h
 	}
+	throw := func() *eng.Node { return throwN("h") }
 	catch := func() *eng.Node {
 		c := g.Add("intermediateCatchEvent", "c", "")
 		c.Defs = []eng.EventDef{{Kind: "message", Name: "msg_" + id + "_c"}}
@@ -233,6 +263,8 @@ func c18graph(id, shape string, executable bool) *eng.Graph {
 		chain(st, throw(), en)
 	case "thr1":
 		chain(st, task("A"), throw(), task("B"), en)
+	case "thr2": // two throw events, one after the other
+		chain(st, task("A"), throw(), throwN("h2"), task("B"), en)
 	case "wthr":
 		chain(st, task("A"), throw(), en)
 	case "cat":
@@ -263,7 +295,11 @@ func (c c18case) graphs() ([]*eng.Graph, []eng.MsgFlow) {
 		if f.Kind == "catch" {
 			dst = gs[f.To].ProcID + "_c"
 		}
-		fl = append(fl, eng.MsgFlow{ID: fmt.Sprintf("mf%d", i), Src: gs[f.From].ProcID + "_h", Dst: dst})
+		src := f.Src
+		if src == "" {
+			src = "h"
+		}
+		fl = append(fl, eng.MsgFlow{ID: fmt.Sprintf("mf%d", i), Src: gs[f.From].ProcID + "_" + src, Dst: dst})
 	}
 	return gs, fl
 }
@@ -605,18 +641,50 @@ func c18sub(spec string) {
 		}
 		s.Quiesce(2 * timeSecond)
 	}
-	// drive: answer pending tasks one at a time at quiescence, in a seeded order
-	for steps := 0; steps < 60; steps++ {
-		if !s.Quiesce(4 * timeSecond) {
-			s.Say("obs noquiesce")
-			break
+	// drive: answer pending tasks one at a time at quiescence (seeded order, or first / last pending); in mode park
+	// the requests of one node (or one occurrence of it) are withheld
+	parked := func(q *eng.Req) bool {
+		if c.Mode != "park" || c.Park == "" {
+			return false
 		}
-		recordWaits()
-		p := s.Pending()
-		if len(p) == 0 {
-			break
+		w := strings.SplitN(c.Park, ":", 2)
+		if q.Node != w[0] {
+			return false
 		}
-		answer(p[rng.Intn(len(p))])
+		return len(w) == 1 || fmt.Sprint(q.Occ) == w[1]
+	}
+	drive := func(withhold bool) {
+		for steps := 0; steps < 60; steps++ {
+			if !s.Quiesce(4 * timeSecond) {
+				s.Say("obs noquiesce")
+				break
+			}
+			recordWaits()
+			var p []*eng.Req
+			for _, q := range s.Pending() {
+				if !(withhold && parked(q)) {
+					p = append(p, q)
+				}
+			}
+			if len(p) == 0 {
+				break
+			}
+			switch c.Order {
+			case "fwd":
+				answer(p[0])
+			case "rev":
+				answer(p[len(p)-1])
+			default:
+				answer(p[rng.Intn(len(p))])
+			}
+		}
+	}
+	drive(true)
+	if c.Mode == "park" {
+		// one message-started process is still parked on its task: the set is not complete
+		wait(1500 * time.Millisecond)
+		s.Quiesce(2 * timeSecond)
+		drive(false)
 	}
 	if c.Sched == "holdinst" {
 		// the run loop is parked inside the instantiation; every process started so far has finished
@@ -626,7 +694,7 @@ func c18sub(spec string) {
 	release()
 	s.Quiesce(4 * timeSecond)
 	switch c.Mode {
-	case "single", "early":
+	case "single", "early", "park":
 		if c.Sched != "holdinst" {
 			wait(2 * time.Second)
 		}
